@@ -151,6 +151,7 @@ type procResult struct {
 	results []hx.Result
 	err     string // non-empty: process problem (timeout, crash without result)
 	output  string
+	crash   string // non-empty: the process was killed by a panic raised inside jennifer's code (excerpt)
 }
 
 // runBin executes the test binary once and collects the result files it wrote.
@@ -203,6 +204,22 @@ func runBin(bin string, env []string, timeout time.Duration, extra ...string) pr
 					}
 				}
 				pr.results = append(pr.results, hx.Result{Violations: []hx.Violation{v}})
+			} else if crash := libraryCrash(pr.output); crash != "" {
+				// A panic that the check could not recover (it was raised on a goroutine the library started, or
+				// is a fatal runtime error such as concurrent map writes) with jennifer's code on top of the
+				// stack: the case that was running is the last checkpoint. Harness panics, out-of-memory kills
+				// and timeouts do not match and stay inconclusive.
+				pr.crash = crash
+				if data, err := os.ReadFile(filepath.Join(out, "checkpoint.json")); err == nil {
+					var rf hx.ReplayFile
+					if json.Unmarshal(data, &rf) == nil {
+						v := hx.Violation{Check: rf.Check, Case: rf.Case, Error: "the process was killed while this case was being judged: a panic the caller cannot recover, raised in jennifer's code:\n" + crash}
+						pr.results = append(pr.results, hx.Result{Violations: []hx.Violation{v}})
+					}
+				}
+				if len(pr.results) == 0 || len(pr.results[len(pr.results)-1].Violations) == 0 {
+					pr.err = "test process failed: " + runErr.Error() + " (killed by a panic in jennifer's code, no checkpoint to attribute it to)"
+				}
 			} else {
 				pr.err = "test process failed: " + runErr.Error()
 			}
@@ -211,6 +228,48 @@ func runBin(bin string, env []string, timeout time.Duration, extra ...string) pr
 		pr.err = "test process wrote no result"
 	}
 	return pr
+}
+
+// libraryCrash returns an excerpt of the output if the process died of a panic or fatal error whose
+// running goroutine has jennifer's code as its first non-runtime frame.
+func libraryCrash(out string) string {
+	i := strings.Index(out, "\npanic: ")
+	if j := strings.Index(out, "\nfatal error: "); j >= 0 && (i < 0 || j < i) {
+		i = j
+	}
+	if i < 0 {
+		if strings.HasPrefix(out, "panic: ") || strings.HasPrefix(out, "fatal error: ") {
+			i = 0
+		} else {
+			return ""
+		}
+	}
+	e := out[i:]
+	g := strings.Index(e, "\ngoroutine ")
+	if g < 0 {
+		return ""
+	}
+	lines := strings.Split(e[g+1:], "\n")
+	// lines[0] = "goroutine N [running]:", then pairs of function / file lines
+	first := ""
+	for _, l := range lines[1:] {
+		if l == "" {
+			break
+		}
+		if strings.HasPrefix(l, "\t") || strings.HasPrefix(l, "panic(") || strings.HasPrefix(l, "runtime.") || strings.HasPrefix(l, "runtime/") || strings.HasPrefix(l, "sync.") || strings.HasPrefix(l, "internal/") {
+			continue
+		}
+		first = l
+		break
+	}
+	if !strings.HasPrefix(first, "github.com/dave/jennifer/") {
+		return ""
+	}
+	all := strings.Split(strings.TrimLeft(e, "\n"), "\n")
+	if len(all) > 25 {
+		all = all[:25]
+	}
+	return strings.Join(all, "\n")
 }
 
 func raceExcerpt(s string) string {
@@ -286,6 +345,9 @@ func replayOne(bin, id string, rf *hx.ReplayFile, tmp string) (violated bool, ms
 	p := filepath.Join(tmp, fmt.Sprintf("replay-%x.json", sha1.Sum(b)))
 	_ = os.WriteFile(p, b, 0o644)
 	pr := runBin(bin, []string{"VERIF_REPLAY=" + p, "VERIF_TIER=quick", "VERIF_SEED=" + strconv.FormatUint(seed(), 10)}, 5*time.Minute)
+	if pr.crash != "" {
+		return true, "the process was killed while this case was being judged: a panic the caller cannot recover, raised in jennifer's code:\n" + pr.crash, ""
+	}
 	if pr.err != "" {
 		return false, "", pr.err + "\n" + tail(pr.output, 30)
 	}
